@@ -328,6 +328,18 @@ func FrontEnd(h http.Handler, mode string) http.Handler {
 			rw.WriteHeader(rec.Code)
 			rw.Write(body)
 		})
+	case "prefix":
+		// the log lives below a path of its host (https://host/logs/name/...): everything else on the host is 404
+		return http.HandlerFunc(func(rw http.ResponseWriter, r *http.Request) {
+			if r.URL.Path != MountPoint && !strings.HasPrefix(r.URL.Path, MountPoint+"/") {
+				http.NotFound(rw, r)
+				return
+			}
+			r2 := r.Clone(r.Context())
+			r2.URL.Path = strings.TrimPrefix(r.URL.Path, MountPoint)
+			r2.URL.RawPath = ""
+			h.ServeHTTP(rw, r2)
+		})
 	case "redirect":
 		return http.HandlerFunc(func(rw http.ResponseWriter, r *http.Request) {
 			if !strings.HasPrefix(r.URL.Path, "/canonical/") {
@@ -345,4 +357,14 @@ func FrontEnd(h http.Handler, mode string) http.Handler {
 		})
 	}
 	return h
+}
+
+// MountPoint is where the "prefix" front end serves the log; URLOf gives the URL to configure for a front end mode.
+const MountPoint = "/logs/verif.mounted"
+
+func URLOf(base, mode string) string {
+	if mode == "prefix" {
+		return base + MountPoint
+	}
+	return base
 }
